@@ -21,7 +21,7 @@ from pyvc.heap import DictObj, ListObj, Obj
 from pyvc.interp import LOADER, OtherException
 from pyvc.spec import Contract, Lemma, resolve_target
 from pyvc.theories import serial
-from pyvc.theories.serial import JsonList, TdVal, TsVal
+from pyvc.theories.serial import FlowJson, JsonList, TdVal, TsVal
 from pyvc.values import SymCallable
 
 IO = "pandera.io.pandas_io"
@@ -108,7 +108,7 @@ def same(a, b):
     """value equality of a transported value and the original (identity for opaque JSON values)"""
     if a is b:
         return True
-    if isinstance(a, (Obj, JsonList)) or isinstance(b, (Obj, JsonList)):
+    if isinstance(a, (Obj, JsonList, FlowJson)) or isinstance(b, (Obj, JsonList, FlowJson)):
         return False
     if isinstance(a, (list, ListObj)) and isinstance(b, (list, tuple, ListObj)):
         return len(a) == len(b) and And(*[same(x, y) for x, y in zip(a, b)]) if len(a) == len(b) else False
@@ -481,3 +481,230 @@ class ComponentRoundTrip(Contract):
 
 
 CONTRACTS.append(ComponentRoundTrip)
+
+
+# ---------------------------------------------------------------------------------------
+# whole schema: serialize_schema -> wire -> deserialize_schema
+# ---------------------------------------------------------------------------------------
+
+SCHEMA_ATTRS = ("dtype", "coerce", "strict", "name", "ordered", "unique", "report_duplicates", "unique_column_names",
+                "add_missing_columns", "title", "description")
+MULTIINDEX_OPTIONS = ("coerce", "strict", "name", "ordered", "unique")
+
+
+FLOW = T.Lazy(lambda n: FlowJson(name=n))  # schema-level attributes are only passed along: any JSON scalar or None, no case split
+
+
+def component_object(kind, label, dtype_kind, check_names):
+    """a pre-existing Column / Index object: its serialisable attributes as fields"""
+    checks = ListObj(check_object(f"{label}.checks[{i}]", n, simple=False, dtype_kind=dtype_kind) for i, n in enumerate(check_names))
+    fields = dict(dtype=T.Const(live_dtype(dtype_kind)), nullable=T.Bool, unique=T.Bool, coerce=T.Bool, checks=T.Const(checks),
+                  title=T.Str, description=T.Str)
+    if kind == "column":
+        fields.update(required=T.Bool, regex=T.Bool)
+    else:
+        fields.update(name=T.Str)
+    return T.Ref(None, strict=True, **fields).fresh(label)
+
+
+def snapshot_object(kind, o):
+    from contracts.util import fld0
+
+    names = ("dtype", "nullable", "unique", "coerce", "title", "description") + (("required", "regex") if kind == "column" else ("name",))
+    snap = {f: fld0(o, f) for f in names}
+    checks = fld0(o, "checks")
+    snap["checks"] = {c.attrs["name"]: {**dict(c.attrs["statistics"]), "options": documented_options(c)} for c in checks} if checks else None
+    return snap
+
+
+def stats_dicts_of(schema_objs):
+    out = []
+    for o in schema_objs:
+        for c in o.attrs.get("checks", ()) or ():
+            out.append(c.attrs["statistics"])
+    return out
+
+
+class SchemaRoundTrip(Contract):
+    """deserialize_schema(transport(serialize_schema(S))) builds a schema from exactly S's serialisable attributes: the
+    DataFrameSchema constructor receives every schema-level attribute, one Column per column under the same key in the
+    same order with the column's attributes, the index (None / Index / MultiIndex of the same levels), the dataframe-level
+    checks; and S itself is left as it was."""
+
+    target = f"{IO}:serialize_schema"
+    split = {"columns": [0, 1, 2], "index": ["none", "single", "multi"]}
+    sym_globals = {f"{IO}:Check": check_namespace(), f"{IO}:Column": T.Callback(T.Lazy(fresh_instance), raises=False),
+                   f"{IO}:DataFrameSchema": T.Callback(T.Lazy(fresh_instance), raises=False)}
+    raises = ()
+    max_paths = 20000
+
+    def setup(self, I):
+        import pandera
+
+        serial.install(I)
+        install_class_contains(I)
+
+        def forward(which):
+            def model(I, *args, **kw):
+                cbs = cur().ghost.setdefault("ctor", {})
+                if which not in cbs:
+                    cbs[which] = SymCallable(which, T.Lazy(fresh_instance), raises=False)
+                return I.call(cbs[which], list(args), kw)
+
+            return model
+
+        I.models[id(pandera.Index)] = forward("Index")
+        I.models[id(pandera.MultiIndex)] = forward("MultiIndex")
+
+    def make_args(self):
+        ncols, ishape = self.fixed["columns"], self.fixed["index"]
+        kinds = ["int64", "datetime64[ns]"]
+        cols = DictObj()
+        col_objs = []
+        for i in range(ncols):
+            name = T.fresh_value(T.Str, f"colname{i}")
+            o = component_object("column", f"col{i}", kinds[i % 2], [] if i == 0 else ["in_range"])
+            cols[name] = o
+            col_objs.append(o)
+        levels = []
+        if ishape != "none":
+            levels.append(component_object("index", "level0", "int64", ["isin"]))
+        if ishape == "multi":
+            levels.append(component_object("index", "level1", "timedelta64[ns]", []))
+        if ishape == "none":
+            index = None
+        elif ishape == "single":
+            index = levels[0]
+        else:
+            mref = T.Ref(None, strict=True, indexes=T.Const(ListObj(levels)), coerce=T.Bool, name=FLOW,
+                         ordered=T.Bool, unique=FLOW)
+            mref.fields["strict"] = T.Bool
+            index = mref.fresh("multiindex")
+        k = cur().choose([("none", None), ("one", None)], "dataframe_checks")
+        wide = ListObj([check_object("checks[0]", "equal_to", simple=False, dtype_kind="none")] if k else [])
+        kd = cur().choose([("None", None), ("int64", None)], "schema.dtype") if ncols == 0 else 0
+        sref = T.Ref(None, strict=True, columns=T.Const(cols), checks=T.Const(wide), index=T.Const(index),
+                       dtype=T.Const(None if kd == 0 else live_dtype("int64")), coerce=T.Bool,
+                       name=FLOW, ordered=T.Bool, unique=FLOW, report_duplicates=FLOW,
+                       unique_column_names=T.Bool, add_missing_columns=T.Bool, title=FLOW, description=FLOW)
+        sref.fields["strict"] = FLOW  # True | False | "filter"
+        schema = sref.fresh("schema")
+        from contracts.util import fld0
+
+        g = cur().ghost
+        everything = col_objs + levels + [schema]
+        schema.attrs["checks"] = wide
+        schema.attrs0["checks"] = wide
+        g["c12"] = dict(cols=[(n, o, snapshot_object("column", o)) for n, o in cols.items()],
+                        levels=[(o, snapshot_object("index", o)) for o in levels], ishape=ishape, index=index,
+                        wide=[(c.attrs["name"], {**dict(c.attrs["statistics"]), "options": documented_options(c)}) for c in wide],
+                        attrs={a: fld0(schema, a) for a in SCHEMA_ATTRS},
+                        stats0=[(d, dict(d)) for d in stats_dicts_of(everything)])
+        return {"dataframe_schema": schema}
+
+    def call_target(self, I, fn, a):
+        g = cur().ghost["c12"]
+        ser = I.call(fn, [a["dataframe_schema"]], {})
+        bad = []
+        wire = serial.transport(ser, "$", bad, text_keys=False)
+        g["bad"] = bad
+        deser = LOADER.closure_of(resolve_target(f"{IO}:deserialize_schema"))
+        return I.call(deser, [wire], {})
+
+    def modifies(self, dataframe_schema):
+        return [("container", id(d)) for d, _ in cur().ghost["c12"]["stats0"]]
+
+    def ensures(self, result, old, dataframe_schema):
+        g = cur().ghost["c12"]
+        p = cur()
+        ns = p.globals_state.get((IO, "Check"))
+        col_cb = p.globals_state.get((IO, "Column"))
+        sch_cb = p.globals_state.get((IO, "DataFrameSchema"))
+        ctor = p.ghost.get("ctor", {})
+        bad = g["bad"]
+        out = {"wire_form_is_json": not bad}
+        if bad:
+            cur().labels.append("not representable: " + ", ".join(w for w, _ in bad))
+        out["schema_constructed_exactly_once"] = sch_cb is not None and len(sch_cb.calls) == 1 and result is not None and \
+            isinstance(result, Obj) and result.name.endswith("DataFrameSchema#0")
+        if not out["schema_constructed_exactly_once"]:
+            return out
+        pargs, kw = sch_cb.calls[0]
+        out["schema_attributes_passed_by_name"] = len(pargs) == 0
+        for a_ in SCHEMA_ATTRS:
+            want = g["attrs"][a_]
+            got = kw.get(a_, "<missing>")
+            if a_ == "dtype":
+                out["schema_dtype_survives"] = (got is None) if want is None else (got == want)
+            else:
+                out[f"schema_{a_}_survives"] = (a_ in kw) and same(got, want)
+        seen = {}
+        # columns
+        cols = kw.get("columns")
+        want_cols = g["cols"]
+        ncalls = len(col_cb.calls) if col_cb is not None else 0
+        out["one_column_per_column_same_keys_same_order"] = isinstance(cols, (dict, DictObj)) and len(cols) == len(want_cols) and \
+            all(k is n for k, (n, _, _) in zip(cols, want_cols)) and ncalls == len(want_cols)
+        if out["one_column_per_column_same_keys_same_order"]:
+            for i, ((n, o, snap), inst) in enumerate(zip(want_cols, cols.values())):
+                out[f"column_{i}_is_the_constructed_column"] = isinstance(inst, Obj) and inst.name.endswith(f"Column#{i}")
+                cp, ckw = col_cb.calls[i]
+                component_kwargs_match(ckw, snap, ns, out, f"column_{i}_", seen) if not cp else out.update({f"column_{i}_keywords": False})
+        # index
+        idx = kw.get("index", "<missing>")
+        icb = ctor.get("Index")
+        icalls = icb.calls if icb is not None else []
+        if g["ishape"] == "none":
+            out["no_index_stays_none"] = idx is None and not icalls and "MultiIndex" not in ctor
+        else:
+            out["one_index_per_level"] = len(icalls) == len(g["levels"])
+            if out["one_index_per_level"]:
+                for i, ((o, snap), (cp, ckw)) in enumerate(zip(g["levels"], icalls)):
+                    component_kwargs_match(ckw, snap, ns, out, f"level_{i}_", seen) if not cp else out.update({f"level_{i}_keywords": False})
+            if g["ishape"] == "single":
+                out["single_index_is_an_index"] = isinstance(idx, Obj) and idx.name.endswith("Index#0") and "MultiIndex" not in ctor
+            else:
+                mcb = ctor.get("MultiIndex")
+                ok = mcb is not None and len(mcb.calls) == 1 and isinstance(idx, Obj) and idx.name.endswith("MultiIndex#0")
+                out["multiindex_constructed_once"] = ok
+                if ok:
+                    mp, mkw = mcb.calls[0]
+                    lv = mkw.get("indexes", mp[0] if mp else None)
+                    out["multiindex_levels_in_order"] = isinstance(lv, (list, ListObj)) and len(lv) == len(g["levels"]) and \
+                        all(isinstance(x, Obj) and x.name.endswith(f"Index#{i}") for i, x in enumerate(lv))
+                    from contracts.util import fld0
+
+                    allopt = True
+                    missing = []
+                    for o_ in MULTIINDEX_OPTIONS:
+                        if o_ not in mkw:
+                            allopt = False
+                            missing.append(o_)
+                        else:
+                            allopt = And(allopt, same(mkw[o_], fld0(g["index"], o_)))
+                    if missing:
+                        cur().labels.append("MultiIndex options not passed: " + ",".join(missing))
+                    out["multiindex_options_survive"] = allopt
+        # dataframe-level checks
+        wide = kw.get("checks", "<missing>")
+        if not g["wide"]:
+            out["no_dataframe_checks_stay_none"] = wide is None
+        else:
+            ok = isinstance(wide, (list, ListObj)) and len(wide) == len(g["wide"])
+            out["one_instance_per_dataframe_check"] = ok
+            if ok:
+                for i, ((n, st), inst) in enumerate(zip(g["wide"], wide)):
+                    cb = ns.attrs.get(n)
+                    k = seen.get(n, 0)
+                    ok2 = isinstance(inst, Obj) and isinstance(cb, SymCallable) and inst.name.endswith(f".{n}#{k}") and len(cb.calls) > k
+                    out[f"dataframe_check_{i}_built_by_its_named_constructor"] = ok2
+                    if ok2:
+                        check_call_matches(cb.calls[k], st, out, f"dataframe_check_{i}_")
+                        check_options_match(inst, st["options"], out, f"dataframe_check_{i}_")
+                        seen[n] = k + 1
+        # S itself
+        out["schema_unchanged"] = all(list(d) == list(d0) and all(d[k] is v for k, v in d0.items()) for d, d0 in g["stats0"])
+        return out
+
+
+CONTRACTS.append(SchemaRoundTrip)
